@@ -54,38 +54,33 @@ section refinement
 variable {κ δ ε : Type} [DecidableEq κ] [DecidableEq δ] [DecidableEq ε]
 
 /-- What the theorems assume about the serializer and the column types. -/
-structure EncOk (be : Backend) (E : Enc κ δ ε) (kindOf : Nat → Kind) : Prop where
+structure EncOk (be : Backend) (E : Enc κ δ ε) : Prop where
   /-- column family names identify (kind, type id) -/
   nameInj : ∀ k k' i i', cfName be.namePrefix k i = cfName be.namePrefix k' i' → k = k' ∧ i = i'
   /-- a backend that refuses empty keys pads them (true of both shipped backends) -/
   padOk : be.maxKey = none ∨ be.padKey = true
-  pfD : ∀ c, kindOf c = .wide → PrefixFree (E.encD c)
-  pfK : ∀ c, kindOf c = .wide → PrefixFree (E.encK c)
-  injK : ∀ c, kindOf c = .set → ∀ a b, E.encK c a = E.encK c b → a = b
-  injE : ∀ c, kindOf c = .set → ∀ a b, E.encE c a = E.encE c b → a = b
-  lenK : ∀ c k, (E.encK c k).length < 2 ^ 64 - 1
-
-/-- the operation uses its column with the kind `kindOf` assigns to the type id -/
-def opKindOk (kindOf : Nat → Kind) : LOp κ δ ε → Prop
-  | .put c _ _ _ => kindOf c = .wide
-  | .del c _ _ => kindOf c = .wide
-  | .ins c _ _ => kindOf c = .set
-  | .rem c _ _ => kindOf c = .set
+  /-- the family cache is keyed by (type id, kind) (true of both shipped backends since the repair of F19) -/
+  byKind : be.cacheByKind = true
+  pfD : ∀ c, PrefixFree (E.encD c)
+  pfK : ∀ c, PrefixFree (E.encK c)
+  injK : ∀ c, ∀ a b, E.encSK c a = E.encSK c b → a = b
+  injE : ∀ c, ∀ a b, E.encE c a = E.encE c b → a = b
+  lenK : ∀ c k, (E.encSK c k).length < 2 ^ 64 - 1
 
 /-- the composite key is within the backend's key-size limit -/
 def opFits (be : Backend) (E : Enc κ δ ε) (op : LOp κ δ ε) : Prop :=
   keyOver be (opParts be E op).2.2.1 = false
 
-def OpOk (be : Backend) (E : Enc κ δ ε) (kindOf : Nat → Kind) (op : LOp κ δ ε) : Prop :=
-  opKindOk kindOf op ∧ opFits be E op
+def OpOk (be : Backend) (E : Enc κ δ ε) (op : LOp κ δ ε) : Prop :=
+  opFits be E op
 
-/-- well-formed commands: one kind per type id, keys within the backend's size limit -/
-def CmdOk (be : Backend) (E : Enc κ δ ε) (kindOf : Nat → Kind) : Cmd κ δ ε → Prop
-  | .bop _ op => OpOk be E kindOf op
-  | .sop _ op => OpOk be E kindOf op
-  | .get c d k =>
-    kindOf c = .wide ∧ keyOver be (wideKey be.padKey (E.plc c) (E.encD c d) (E.encK c k)) = false
-  | .scan c k => kindOf c = .set ∧ keyOver be (setPrefix (E.encK c k)) = false
+/-- well-formed commands: keys within the backend's size limit (nothing else: in particular a type id
+may be used with BOTH column kinds) -/
+def CmdOk (be : Backend) (E : Enc κ δ ε) : Cmd κ δ ε → Prop
+  | .bop _ op => OpOk be E op
+  | .sop _ op => OpOk be E op
+  | .get c d k => keyOver be (wideKey be.padKey (E.plc c) (E.encD c d) (E.encK c k)) = false
+  | .scan c k => keyOver be (setPrefix (E.encSK c k)) = false
   | _ => True
 
 def encW (be : Backend) (E : Enc κ δ ε) (op : LOp κ δ ε) : WOp :=
@@ -97,35 +92,31 @@ def encS (be : Backend) (E : Enc κ δ ε) (op : LOp κ δ ε) : SOp :=
   ⟨p.1, p.2.1, if be.sbufEarly then some (cfName be.namePrefix p.2.1 p.1) else none, p.2.2.1,
     p.2.2.2⟩
 
-def CacheInv (be : Backend) (kindOf : Nat → Kind) (cache : List (Nat × String)) : Prop :=
-  ∀ id n, aget cache id = some n → n = cfName be.namePrefix (kindOf id) id
+def CacheInv (be : Backend) (cache : List ((Nat × Kind) × String)) : Prop :=
+  ∀ id kind n, aget cache (id, kind) = some n → n = cfName be.namePrefix kind id
 
 /-- the committed store content represents the committed logical state -/
-structure RelD (be : Backend) (E : Enc κ δ ε) (kindOf : Nat → Kind) (colf : String → Col)
+structure RelD (be : Backend) (E : Enc κ δ ε) (colf : String → Col)
     (wide : Nat → δ → κ → Option Bytes) (sets : Nat → κ → ε → Bool) : Prop where
-  wide : ∀ c d k, kindOf c = .wide →
+  wide : ∀ c d k,
     aget (colf (cfName be.namePrefix .wide c))
       (wideKey be.padKey (E.plc c) (E.encD c d) (E.encK c k)) = wide c d k
-  sets : ∀ c, kindOf c = .set → ∀ x, x ∈ akeys (colf (cfName be.namePrefix .set c)) ↔
-    ∃ k e, x = setKey (E.encK c k) (E.encE c e) ∧ sets c k e = true
+  sets : ∀ c, ∀ x, x ∈ akeys (colf (cfName be.namePrefix .set c)) ↔
+    ∃ k e, x = setKey (E.encSK c k) (E.encE c e) ∧ sets c k e = true
   nodup : ∀ n, (akeys (colf n)).Nodup
 
 /-- simulation relation between a model state and a specification state -/
-structure Rel (be : Backend) (E : Enc κ δ ε) (kindOf : Nat → Kind) (db : Db) (sp : Spec κ δ ε) :
+structure Rel (be : Backend) (E : Enc κ δ ε) (db : Db) (sp : Spec κ δ ε) :
     Prop where
-  cache : CacheInv be kindOf db.cache
-  disk : RelD be E kindOf db.disk.col sp.wide sp.sets
+  cache : CacheInv be db.cache
+  disk : RelD be E db.disk.col sp.wide sp.sets
   batches : ∀ h, aget db.batches h = (aget sp.batches h).map (·.map (encW be E))
   sbufs : ∀ s, aget db.sbufs s = (aget sp.sbufs s).map (·.map (encS be E))
-  bok : ∀ h ops, aget sp.batches h = some ops → ∀ op ∈ ops, OpOk be E kindOf op
-  sok : ∀ s ops, aget sp.sbufs s = some ops → ∀ op ∈ ops, OpOk be E kindOf op
+  bok : ∀ h ops, aget sp.batches h = some ops → ∀ op ∈ ops, OpOk be E op
+  sok : ∀ s ops, aget sp.sbufs s = some ops → ∀ op ∈ ops, OpOk be E op
 
-theorem opParts_kind (be : Backend) (E : Enc κ δ ε) (kindOf : Nat → Kind) (op : LOp κ δ ε)
-    (h : opKindOk kindOf op) : kindOf (opParts be E op).1 = (opParts be E op).2.1 := by
-  cases op <;> exact h
-
-theorem badKey_opParts (be : Backend) (E : Enc κ δ ε) (kindOf : Nat → Kind)
-    (hE : EncOk be E kindOf) (op : LOp κ δ ε) (h : opFits be E op) :
+theorem badKey_opParts (be : Backend) (E : Enc κ δ ε)
+    (hE : EncOk be E) (op : LOp κ δ ε) (h : opFits be E op) :
     badKey be (opParts be E op).2.2.1 = false := by
   unfold opFits keyOver at h
   unfold badKey
@@ -156,17 +147,19 @@ theorem badKey_opParts (be : Backend) (E : Enc κ δ ε) (kindOf : Nat → Kind)
     simp only [he, Bool.false_or]
     exact h
 
-/-- `get_or_create_cf`: under the one-kind-per-type assumption the cache is transparent -/
-theorem resolve_eq (be : Backend) (kindOf : Nat → Kind) (db : Db) (id : Nat) (kind : Kind)
-    (hc : CacheInv be kindOf db.cache) (hk : kindOf id = kind) :
+/-- `get_or_create_cf`: a cache keyed by (type id, kind) is transparent — whatever the session did
+before (in particular: used the same type id with the OTHER kind), the family handed out is the one
+named after this id and this kind -/
+theorem resolve_eq (be : Backend) (db : Db) (id : Nat) (kind : Kind)
+    (hbk : be.cacheByKind = true) (hc : CacheInv be db.cache) :
     ∃ db', resolve be db id kind = (cfName be.namePrefix kind id, db') ∧
       db'.batches = db.batches ∧ db'.sbufs = db.sbufs ∧
-      (∀ n, db'.disk.col n = db.disk.col n) ∧ CacheInv be kindOf db'.cache := by
-  unfold resolve
-  cases hg : aget db.cache id with
+      (∀ n, db'.disk.col n = db.disk.col n) ∧ CacheInv be db'.cache := by
+  unfold resolve cacheKey
+  simp only [hbk, if_true]
+  cases hg : aget db.cache (id, kind) with
   | some n =>
-    have := hc id n hg
-    rw [hk] at this
+    have := hc id kind n hg
     exact ⟨db, by simp [this], rfl, rfl, fun _ => rfl, hc⟩
   | none =>
     refine ⟨_, rfl, rfl, rfl, ?_, ?_⟩
@@ -175,20 +168,20 @@ theorem resolve_eq (be : Backend) (kindOf : Nat → Kind) (db : Db) (id : Nat) (
       split
       · rfl
       · exact col_append_empty _ _ _
-    · intro id' n hn
+    · intro id' kind' n hn
       simp only [aget_aset] at hn
-      by_cases e : id = id'
-      · subst e
+      by_cases e : (id, kind) = (id', kind')
+      · cases e
         simp only [beq_self_eq_true, if_true, Option.some.injEq] at hn
-        rw [hk, ← hn]
-      · have : (id == id') = false := by simpa using e
+        rw [← hn]
+      · have : ((id, kind) == (id', kind')) = false := by simpa using e
         simp only [this, Bool.false_eq_true, if_false] at hn
-        exact hc id' n hn
+        exact hc id' kind' n hn
 
-theorem relD_congr {be : Backend} {E : Enc κ δ ε} {kindOf : Nat → Kind} {f g : String → Col}
+theorem relD_congr {be : Backend} {E : Enc κ δ ε} {f g : String → Col}
     {w : Nat → δ → κ → Option Bytes} {s : Nat → κ → ε → Bool} (h : ∀ n, g n = f n)
-    (hr : RelD be E kindOf f w s) : RelD be E kindOf g w s :=
-  ⟨fun c d k hc => by rw [h]; exact hr.wide c d k hc, fun c hc x => by rw [h]; exact hr.sets c hc x,
+    (hr : RelD be E f w s) : RelD be E g w s :=
+  ⟨fun c d k => by rw [h]; exact hr.wide c d k, fun c x => by rw [h]; exact hr.sets c x,
     fun n => by rw [h]; exact hr.nodup n⟩
 
 theorem applyOp_col (d : Disk) (op : WOp) (n : String) :
@@ -209,19 +202,18 @@ theorem applyOp_nodup (d : Disk) (op : WOp) (h : ∀ n, (akeys (d.col n)).Nodup)
   · exact h n
 
 /-- one committed operation: the store changes exactly as the specification says -/
-theorem applyOp_rel (be : Backend) (E : Enc κ δ ε) (kindOf : Nat → Kind) (hE : EncOk be E kindOf)
+theorem applyOp_rel (be : Backend) (E : Enc κ δ ε) (hE : EncOk be E)
     (d : Disk) (w : Nat → δ → κ → Option Bytes) (s : Nat → κ → ε → Bool) (op : LOp κ δ ε)
-    (hk : opKindOk kindOf op) (hr : RelD be E kindOf d.col w s) :
-    RelD be E kindOf (applyOp d (encW be E op)).col (specApply (w, s) op).1
+    (hr : RelD be E d.col w s) :
+    RelD be E (applyOp d (encW be E op)).col (specApply (w, s) op).1
       (specApply (w, s) op).2 := by
-  have hlen : ∀ c k, (E.encK c k).length < 2 ^ 64 := fun c k => by
+  have hlen : ∀ c k, (E.encSK c k).length < 2 ^ 64 := fun c k => by
     have := hE.lenK c k
     omega
   cases op with
   | put c0 d0 k0 v =>
-    have hk0 : kindOf c0 = .wide := hk
     constructor
-    · intro c d k hc
+    · intro c d k
       rw [applyOp_col]
       simp only [encW, opParts, specApply]
       by_cases hcc : c0 = c
@@ -229,7 +221,7 @@ theorem applyOp_rel (be : Backend) (E : Enc κ δ ε) (kindOf : Nat → Kind) (h
         simp only [if_true, aget_aset, true_and]
         by_cases hkey : wideKey be.padKey (E.plc c0) (E.encD c0 d0) (E.encK c0 k0) =
             wideKey be.padKey (E.plc c0) (E.encD c0 d) (E.encK c0 k)
-        · obtain ⟨rfl, rfl⟩ := wideKey_inj_gen _ _ (hE.pfD c0 hc) (hE.pfK c0 hc) hkey
+        · obtain ⟨rfl, rfl⟩ := wideKey_inj_gen _ _ (hE.pfD c0) (hE.pfK c0) hkey
           simp
         · have hne : ¬ (d = d0 ∧ k = k0) := by
             rintro ⟨rfl, rfl⟩
@@ -238,24 +230,23 @@ theorem applyOp_rel (be : Backend) (E : Enc κ δ ε) (kindOf : Nat → Kind) (h
               wideKey be.padKey (E.plc c0) (E.encD c0 d) (E.encK c0 k)) = false := by
             simpa using hkey
           simp only [hb, Bool.false_eq_true, if_false, hne]
-          exact hr.wide c0 d k hc
+          exact hr.wide c0 d k
       · have hn : ¬ cfName be.namePrefix .wide c0 = cfName be.namePrefix .wide c :=
           fun e => hcc (hE.nameInj _ _ _ _ e).2
         have hcc' : ¬ (c = c0 ∧ d = d0 ∧ k = k0) := fun e => hcc e.1.symm
         simp only [hn, if_false, hcc']
-        exact hr.wide c d k hc
-    · intro c hc x
+        exact hr.wide c d k
+    · intro c x
       rw [applyOp_col]
       simp only [encW, opParts, specApply]
       have hn : ¬ cfName be.namePrefix .wide c0 = cfName be.namePrefix .set c :=
         fun e => by have := (hE.nameInj _ _ _ _ e).1; cases this
       simp only [hn, if_false]
-      exact hr.sets c hc x
+      exact hr.sets c x
     · exact applyOp_nodup _ _ hr.nodup
   | del c0 d0 k0 =>
-    have hk0 : kindOf c0 = .wide := hk
     constructor
-    · intro c d k hc
+    · intro c d k
       rw [applyOp_col]
       simp only [encW, opParts, specApply]
       by_cases hcc : c0 = c
@@ -263,7 +254,7 @@ theorem applyOp_rel (be : Backend) (E : Enc κ δ ε) (kindOf : Nat → Kind) (h
         simp only [if_true, aget_adel, true_and]
         by_cases hkey : wideKey be.padKey (E.plc c0) (E.encD c0 d0) (E.encK c0 k0) =
             wideKey be.padKey (E.plc c0) (E.encD c0 d) (E.encK c0 k)
-        · obtain ⟨rfl, rfl⟩ := wideKey_inj_gen _ _ (hE.pfD c0 hc) (hE.pfK c0 hc) hkey
+        · obtain ⟨rfl, rfl⟩ := wideKey_inj_gen _ _ (hE.pfD c0) (hE.pfK c0) hkey
           simp
         · have hne : ¬ (d = d0 ∧ k = k0) := by
             rintro ⟨rfl, rfl⟩
@@ -272,36 +263,35 @@ theorem applyOp_rel (be : Backend) (E : Enc κ δ ε) (kindOf : Nat → Kind) (h
               wideKey be.padKey (E.plc c0) (E.encD c0 d) (E.encK c0 k)) = false := by
             simpa using hkey
           simp only [hb, Bool.false_eq_true, if_false, hne]
-          exact hr.wide c0 d k hc
+          exact hr.wide c0 d k
       · have hn : ¬ cfName be.namePrefix .wide c0 = cfName be.namePrefix .wide c :=
           fun e => hcc (hE.nameInj _ _ _ _ e).2
         have hcc' : ¬ (c = c0 ∧ d = d0 ∧ k = k0) := fun e => hcc e.1.symm
         simp only [hn, if_false, hcc']
-        exact hr.wide c d k hc
-    · intro c hc x
+        exact hr.wide c d k
+    · intro c x
       rw [applyOp_col]
       simp only [encW, opParts, specApply]
       have hn : ¬ cfName be.namePrefix .wide c0 = cfName be.namePrefix .set c :=
         fun e => by have := (hE.nameInj _ _ _ _ e).1; cases this
       simp only [hn, if_false]
-      exact hr.sets c hc x
+      exact hr.sets c x
     · exact applyOp_nodup _ _ hr.nodup
   | ins c0 k0 e0 =>
-    have hk0 : kindOf c0 = .set := hk
     constructor
-    · intro c d k hc
+    · intro c d k
       rw [applyOp_col]
       simp only [encW, opParts, specApply]
       have hn : ¬ cfName be.namePrefix .set c0 = cfName be.namePrefix .wide c :=
         fun e => by have := (hE.nameInj _ _ _ _ e).1; cases this
       simp only [hn, if_false]
-      exact hr.wide c d k hc
-    · intro c hc x
+      exact hr.wide c d k
+    · intro c x
       rw [applyOp_col]
       simp only [encW, opParts, specApply]
       by_cases hcc : c0 = c
       · subst hcc
-        simp only [if_true, mem_akeys_aset, true_and, hr.sets c0 hc x]
+        simp only [if_true, mem_akeys_aset, true_and, hr.sets c0 x]
         constructor
         · rintro (rfl | ⟨k, e, rfl, hs⟩)
           · exact ⟨k0, e0, rfl, by simp⟩
@@ -317,24 +307,23 @@ theorem applyOp_rel (be : Backend) (E : Enc κ δ ε) (kindOf : Nat → Kind) (h
           fun e => hcc (hE.nameInj _ _ _ _ e).2
         have hcc' : ∀ k e, ¬ (c = c0 ∧ k = k0 ∧ e = e0) := fun _ _ e => hcc e.1.symm
         simp only [hn, if_false, hcc']
-        exact hr.sets c hc x
+        exact hr.sets c x
     · exact applyOp_nodup _ _ hr.nodup
   | rem c0 k0 e0 =>
-    have hk0 : kindOf c0 = .set := hk
     constructor
-    · intro c d k hc
+    · intro c d k
       rw [applyOp_col]
       simp only [encW, opParts, specApply]
       have hn : ¬ cfName be.namePrefix .set c0 = cfName be.namePrefix .wide c :=
         fun e => by have := (hE.nameInj _ _ _ _ e).1; cases this
       simp only [hn, if_false]
-      exact hr.wide c d k hc
-    · intro c hc x
+      exact hr.wide c d k
+    · intro c x
       rw [applyOp_col]
       simp only [encW, opParts, specApply]
       by_cases hcc : c0 = c
       · subst hcc
-        simp only [if_true, mem_akeys_adel, true_and, hr.sets c0 hc x]
+        simp only [if_true, mem_akeys_adel, true_and, hr.sets c0 x]
         constructor
         · rintro ⟨hne, k, e, rfl, hs⟩
           refine ⟨k, e, rfl, ?_⟩
@@ -349,39 +338,39 @@ theorem applyOp_rel (be : Backend) (E : Enc κ δ ε) (kindOf : Nat → Kind) (h
             refine ⟨?_, k, e, rfl, hs⟩
             intro heq
             obtain ⟨h1, h2⟩ := setKey_inj_bytes (hlen _ _) (hlen _ _) heq
-            exact hke ⟨hE.injK c0 hc _ _ h1, hE.injE c0 hc _ _ h2⟩
+            exact hke ⟨hE.injK c0 _ _ h1, hE.injE c0 _ _ h2⟩
       · have hn : ¬ cfName be.namePrefix .set c0 = cfName be.namePrefix .set c :=
           fun e => hcc (hE.nameInj _ _ _ _ e).2
         have hcc' : ∀ k e, ¬ (c = c0 ∧ k = k0 ∧ e = e0) := fun _ _ e => hcc e.1.symm
         simp only [hn, if_false, hcc']
-        exact hr.sets c hc x
+        exact hr.sets c x
     · exact applyOp_nodup _ _ hr.nodup
 
 /-- a whole batch: one store write = the specification's fold -/
-theorem foldl_applyOp_rel (be : Backend) (E : Enc κ δ ε) (kindOf : Nat → Kind)
-    (hE : EncOk be E kindOf) (ops : List (LOp κ δ ε)) (hk : ∀ op ∈ ops, opKindOk kindOf op) :
+theorem foldl_applyOp_rel (be : Backend) (E : Enc κ δ ε)
+    (hE : EncOk be E) (ops : List (LOp κ δ ε)) :
     ∀ (d : Disk) (st : (Nat → δ → κ → Option Bytes) × (Nat → κ → ε → Bool)),
-      RelD be E kindOf d.col st.1 st.2 →
-      RelD be E kindOf ((ops.map (encW be E)).foldl applyOp d).col
+      RelD be E d.col st.1 st.2 →
+      RelD be E ((ops.map (encW be E)).foldl applyOp d).col
         (ops.foldl specApply st).1 (ops.foldl specApply st).2 := by
   induction ops with
   | nil => intro d st hr; exact hr
   | cons op ops ih =>
     intro d st hr
     simp only [List.map_cons, List.foldl_cons]
-    apply ih (fun o ho => hk o (List.mem_cons_of_mem _ ho))
-    exact applyOp_rel be E kindOf hE d st.1 st.2 op (hk op List.mem_cons_self) hr
+    apply ih
+    exact applyOp_rel be E hE d st.1 st.2 op hr
 
 /-- `consume_serialization_buffer` moves the buffered operations, in order, into the batch -/
-theorem consumeLoop_ok (be : Backend) (E : Enc κ δ ε) (kindOf : Nat → Kind)
-    (hE : EncOk be E kindOf) (h : Nat) (lops : List (LOp κ δ ε))
-    (hok : ∀ op ∈ lops, OpOk be E kindOf op) :
-    ∀ (db : Db) (ops : List WOp), CacheInv be kindOf db.cache → aget db.batches h = some ops →
+theorem consumeLoop_ok (be : Backend) (E : Enc κ δ ε)
+    (hE : EncOk be E) (h : Nat) (lops : List (LOp κ δ ε))
+    (hok : ∀ op ∈ lops, OpOk be E op) :
+    ∀ (db : Db) (ops : List WOp), CacheInv be db.cache → aget db.batches h = some ops →
       ∃ db', consumeLoop be h (lops.map (encS be E)) db = (.ok, db') ∧
         (∀ x, aget db'.batches x =
           if h == x then some (ops ++ lops.map (encW be E)) else aget db.batches x) ∧
         db'.sbufs = db.sbufs ∧ (∀ n, db'.disk.col n = db.disk.col n) ∧
-        CacheInv be kindOf db'.cache := by
+        CacheInv be db'.cache := by
   induction lops with
   | nil =>
     intro db ops hc hb
@@ -393,18 +382,17 @@ theorem consumeLoop_ok (be : Backend) (E : Enc κ δ ε) (kindOf : Nat → Kind)
       simp [this]
   | cons op lops ih =>
     intro db ops hc hb
-    obtain ⟨hkind, hfit⟩ := hok op List.mem_cons_self
-    have hbad := badKey_opParts be E kindOf hE op hfit
-    have hkk := opParts_kind be E kindOf op hkind
+    have hfit := hok op List.mem_cons_self
+    have hbad := badKey_opParts be E hE op hfit
     -- the column family of the operation, whichever way it is found
     have hres : ∃ db1, sopResolve be db (encS be E op) =
           (cfName be.namePrefix (opParts be E op).2.1 (opParts be E op).1, db1) ∧
         db1.batches = db.batches ∧ db1.sbufs = db.sbufs ∧
-        (∀ n, db1.disk.col n = db.disk.col n) ∧ CacheInv be kindOf db1.cache := by
+        (∀ n, db1.disk.col n = db.disk.col n) ∧ CacheInv be db1.cache := by
       simp only [sopResolve, encS]
       cases be.sbufEarly
       · simp only [Bool.false_eq_true, if_false]
-        exact resolve_eq be kindOf db _ _ hc hkk
+        exact resolve_eq be db _ _ hE.byKind hc
       · exact ⟨db, rfl, rfl, rfl, fun _ => rfl, hc⟩
     obtain ⟨db1, hr1, hb1, hs1, hd1, hc1⟩ := hres
     have hkey : (encS be E op).key = (opParts be E op).2.2.1 := rfl
